@@ -291,7 +291,12 @@ def run(ctx):
                         and any(isinstance(x, ast.Raise) and x.exc is not None
                                 and 'DBDuplicateEntryError' in norm(x.exc)
                                 for x in ast.walk(h)):
-                    ok = True
+                    # ... on every path through the handler: no branch, no
+                    # re-raise of the driver's error (which columns the
+                    # driver names for a primary key clash differs between
+                    # backends)
+                    ok = len(h.body) == 1 and \
+                        isinstance(h.body[0], ast.Raise)
     r2.check(ok, ctx.construct(cw), 'driver duplicate error is not '
              'converted to DBDuplicateEntryError', ctx.loc(cw))
 
